@@ -13,6 +13,16 @@ struct C17 : Harness {
             int kind = *rc::gen::element((int)C128, (int)C64, (int)CM, (int)P128, (int)P64, (int)PM);
             auto bes = backends_for(kind);
             g.add_slot(kind, *rc::gen::elementOf(bes), *rc::gen::element(0, 0xFF, 0xA5));
+            // crowd: 2-20 further objects (any kind) alive while the object under test lives and dies, cleaned up in any
+            // order afterwards - every one of them must be erased as well (a registry of live contexts that fills up, a
+            // pool that hands back unwiped slots)
+            int crowd = *chance(8) ? *irange(2, 20) : (*chance(15) ? 1 : 0);
+            for (int c = 0; c < crowd; ++c) {
+                int k2 = *chance(60) ? kind : *rc::gen::element((int)C128, (int)C64, (int)CM, (int)P128, (int)P64, (int)PM);
+                int sl = g.add_slot(k2, *rc::gen::elementOf(backends_for(k2)), 0);
+                g.init(sl); g.key(sl);
+                if (*chance(50)) g.data(sl);
+            }
             int rounds = *irange(1, 2);
             for (int r = 0; r < rounds; ++r) {
                 int n = *irange(3, 14);
@@ -25,6 +35,11 @@ struct C17 : Harness {
                     }
                     g.cleanup(0);
                 }
+            }
+            if (crowd) {
+                std::vector<int> order; for (int c = 1; c <= crowd; ++c) order.push_back(c);
+                order = *rc::gen::map(rc::gen::arbitrary<uint32_t>(), [order](uint32_t seed) { std::vector<int> o = order; uint64_t x = seed * 0x9e3779b97f4a7c15ULL + 1; for (size_t i = o.size(); i > 1; --i) { x ^= x << 13; x ^= x >> 7; x ^= x << 17; std::swap(o[i - 1], o[x % i]); } return o; });
+                for (int sl : order) if (g.ss[sl].live) { if (*chance(30)) g.data(sl); g.cleanup(sl); }
             }
             return g.p;
         });
@@ -41,10 +56,12 @@ struct C17 : Harness {
         if (skv_mon_nonzero()) return "final cleanup released a block that was not zero";
         if (skv_mon_live()) return "leak after cleanup";
         if (!st.shrinking) {
-            int be = -1; for (auto &r : t) if (r.be >= 0) be = r.be;
+            int be = -1; for (auto &r : t) if (r.be >= 0) { be = r.be; break; }
+            int nobj = 0; for (auto &op : p) if (op.name.rfind("new.", 0) == 0) ++nobj;
+            if (nobj >= 9) st.count("crowd>=9-objects-alive"); else if (nobj > 1) st.count("crowd=2..8-objects-alive");
             std::string kb = p[0].name.substr(4) + "/be" + std::to_string(be);
             st.count("kind/" + kb);
-            for (size_t s : mh.block_sizes) st.count("context-size/" + kb + "=" + std::to_string(s));
+            if (nobj == 1) for (size_t s : mh.block_sizes) st.count("context-size/" + kb + "=" + std::to_string(s));
             if (mh.rich_cleanups) st.count("cleanup-with->=64-nonzero-bytes-incl-last-64-bytes", mh.rich_cleanups);
             if (mh.rich_cleanups_notail) st.count("cleanup-with->=64-nonzero-bytes", mh.rich_cleanups_notail);
             st.extra["blocks_inspected_at_free"] += (double)skv_mon_frees();
